@@ -187,8 +187,8 @@ def s19a_collapse_discipline(ctx):
     imp = [i for i in m.method_impls if (m.adt_path_of_impl(i) or '').endswith('collapse_timeframe::CollapseTimeframe')]
     if len(imp) != 1:
         raise Broken('CollapseTimeframe Method impl not found')
-    b = m.body(m.impl_fn_path(imp[0], 'next'))
-    nb = m.body(m.impl_fn_path(imp[0], 'new'))
+    b = m.body_inlined(m.impl_fn_path(imp[0], 'next'))
+    nb = m.body_inlined(m.impl_fn_path(imp[0], 'new'))
     if b is None or nb is None:
         raise Broken('no body for CollapseTimeframe::next/new')
     adt = m.adt_of_impl(imp[0])
@@ -226,7 +226,7 @@ def s19a_collapse_discipline(ctx):
     # the position is the integer field next() writes
     written = set()
     paths = enumerate_paths(b)
-    syms = [PathSym(b, p) for p in paths]
+    syms = [ps_ for ps_ in (PathSym(b, p) for p in paths) if not ps_.infeasible]
     for ps in syms:
         for fp, tree, pos_ in ps.stores:
             if len(fp) == 1 and fp[0] in ints:
